@@ -545,6 +545,21 @@ func RunCase(w, h int, prefix, ops []string, timeout time.Duration) (lines [][2]
 // Apply runs one op line; ok=false if the op is not understood.
 func (t *Term) Apply(op string) (string, bool) {
 	f := strings.Fields(op)
+	if len(f) >= 2 && f[0] == "rp" {
+		// round 5: `rp <op>` feeds <op> and reports the bytes the emulator wrote to its pty for it (`rp=<hex>`), not the state
+		seq, ok := ParseOp(f[1:])
+		if !ok {
+			return "", false
+		}
+		if t.VT == nil || t.Dead {
+			return "dead", true
+		}
+		t.VT.VerifTakeReplies()
+		if r := t.Feed(seq); r == "panic" || r == "hang" || r == "dead" {
+			return r, true
+		}
+		return "rp=" + hx.Hex(t.VT.VerifTakeReplies()), true
+	}
 	if len(f) == 3 && (f[0] == "new" || f[0] == "resize") {
 		w, e1 := strconv.Atoi(f[1])
 		h, e2 := strconv.Atoi(f[2])
